@@ -99,3 +99,36 @@ def first_diff(a, b, path=''):
                 return d
         return None
     return None if a == b else (path or '/')
+
+
+def leaf_diffs(a, b, path='', out=None, limit=50):
+    """All differing leaves as (path, a, b)."""
+    if out is None:
+        out = []
+    if len(out) >= limit:
+        return out
+    def is_leaf(d):
+        return len(d) == 1 and list(d)[0] in ('f32', 'f64', 's', 'tp', 'dur', 'e') and not isinstance(list(d.values())[0], (dict, list))
+    if isinstance(a, dict) and isinstance(b, dict) and set(a) == set(b) and not is_leaf(a):
+        for k in a:
+            leaf_diffs(a[k], b[k], path + '/' + k, out, limit)
+    elif isinstance(a, list) and isinstance(b, list) and len(a) == len(b):
+        for x, y in zip(a, b):
+            leaf_diffs(x, y, path + '/[]', out, limit)
+    elif a != b:
+        out.append((path, a, b))
+    return out
+
+
+def ulp_distance(a, b, key):
+    """Distance in units in the last place between two described floats, or None."""
+    if not (isinstance(a, dict) and isinstance(b, dict) and key in a and key in b) or not isinstance(a[key], str) or not isinstance(b[key], str) or 'nan' in (a[key], b[key]):
+        return None
+    bits = 32 if key == 'f32' else 64
+    def ordered(h):
+        v = int(h, 16)
+        return v - (1 << (bits - 1)) if v >> (bits - 1) else -v if False else ((1 << (bits - 1)) - 1 - v if False else v)
+    x, y = int(a[key], 16), int(b[key], 16)
+    if (x >> (bits - 1)) != (y >> (bits - 1)):
+        return None
+    return abs(x - y)
